@@ -418,7 +418,7 @@ func (s *Sim) runCLI(host string, name string, f func(a *app.App) int) *Daemon {
 	s.trace("CLI-START %s %s", inc, name)
 	go func() {
 		code := f(a)
-		a.CloseLogger()
+		// not calling a.CloseLogger(): with an interactive logger it closes os.Stderr of this process
 		hookMu.Lock()
 		exitQ = append(exitQ, exitEv{inc, code})
 		hookMu.Unlock()
